@@ -117,7 +117,10 @@ SortStable(s) ==
 RECURSIVE ROc(_, _)
 ROc(t0, costs) ==
   LET n == Len(t0.kids)
-      ks == [i \in 1..n |-> ROc(t0.kids[i], costs)]
+      \* (Append-built: a lazily applied [i \in 1..n |-> ...] would be re-evaluated per use)
+      RECURSIVE col(_, _)
+      col(i, acc) == IF i > n THEN acc ELSE col(i + 1, Append(acc, ROc(t0.kids[i], costs)))
+      ks == col(1, <<>>)
       RECURSIVE sum(_, _)
       sum(i, acc) == IF i > n THEN acc ELSE sum(i + 1, acc + ks[i][1])
       mx(a, b) == IF a > b THEN a ELSE b
